@@ -301,6 +301,13 @@ class PathSim:
             for suf, v in fa.items():
                 st.facts[dest + suf] = v
             return
+        if (t.get("callee") or "") == "std::ops::FromResidual::from_residual":
+            # `?` on the error side: the residual of a Result is an Err, of an Option a None
+            rty = self.f.local_ty(t["dest"]["l"]) if not t["dest"]["p"] else ""
+            if rty.startswith("std::result::Result<"):
+                res = ("v", "Err")
+            elif rty.startswith("std::option::Option<"):
+                res = ("v", "None")
         for tk, mut in targets:
             if mut:
                 st.kill(tk)
